@@ -13,7 +13,7 @@ From Coq Require Import List NArith ZArith.
 From NV Require Import CramIdx.Crai CramIdx.CraiProofs CramIdx.Multi CramIdx.MultiProofs CramIdx.Transport CramIdx.TransportProofs CramIdx.Bytes CramIdx.BytesProofs.
 From NV Require Import Io.Source Io.ReadExact Io.ReadExactProofs Async.ReadExact CramIdx.AsyncQuery CramIdx.AsyncQueryProofs.
 From NV Require Import CramIdx.ContainerLink CramIdx.BytesQueryProofs CramIdx.BufViewProofs CramIdx.SpanProofs.
-From NV Require Import CramIdx.ZeroSpan CramIdx.ZeroSpanProofs.
+From NV Require Import CramIdx.ZeroSpan CramIdx.ZeroSpanProofs CramIdx.ZeroSpanMulti.
 From NV Require Bgzf.Frame Bgzf.Inflate.
 From NV Require Import CramIdx.Gz CramIdx.GzProofs.
 From NV Require Import Trunc.Stream Trunc.Cram Bgzf.Crc32.
@@ -712,6 +712,54 @@ Theorem c19_index_then_query_returns_zero_span_record_at_pos :
     exists l, index_then_query pos nrefs f r lo hi = Ok l /\ In (as_bufz x) l.
 Proof. exact index_then_query_returns_zero_span_at_pos. Qed.
 Print Assumptions c19_index_then_query_returns_zero_span_record_at_pos.
+
+(* ---- the same chain on MULTI-slice containers and multi-reference slices (check kind `mzq`) ---- *)
+
+(* index() -> query() in closed form over the records of the file alone: the converted records of
+   the named reference that meet the region, in file order, each once -- for any number of slices
+   per container and of references per slice *)
+Theorem c19_index_then_query_closed_form :
+  forall pos nrefs f r lo hi,
+    index_span_repaired = true ->
+    mfile_ok pos (map wcont_of (xfile f)) -> r < nrefs ->
+    index_then_query pos nrefs f r lo hi
+    = Ok (filter (selected r (fst (region_bounds lo hi)) (snd (region_bounds lo hi)))
+                 (map as_bufz (flat_map m_recs f))).
+Proof. exact index_then_query_closed_form. Qed.
+Print Assumptions c19_index_then_query_closed_form.
+
+(* so the cut of the records into slices and of the slices into containers is not observable
+   through index() -> query(): a merged multi-slice file answers as the one-slice-per-container
+   file with the same records *)
+Theorem c19_index_then_query_grouping_unobservable :
+  forall pos pos' nrefs f g r lo hi,
+    index_span_repaired = true ->
+    mfile_ok pos (map wcont_of (xfile f)) -> mfile_ok pos' (map wcont_of (xfile g)) ->
+    flat_map m_recs f = flat_map m_recs g -> r < nrefs ->
+    index_then_query pos nrefs f r lo hi = index_then_query pos' nrefs g r lo hi.
+Proof. exact index_then_query_grouping_unobservable. Qed.
+Print Assumptions c19_index_then_query_grouping_unobservable.
+
+Theorem c19_index_then_query_membership :
+  forall pos nrefs f r lo hi y,
+    index_span_repaired = true ->
+    mfile_ok pos (map wcont_of (xfile f)) -> r < nrefs ->
+    exists l, index_then_query pos nrefs f r lo hi = Ok l /\
+      (In y l <-> exists x, In x (flat_map m_recs f) /\ y = as_bufz x /\
+                   selected r (fst (region_bounds lo hi)) (snd (region_bounds lo hi)) (as_bufz x) = true).
+Proof. exact index_then_query_membership. Qed.
+Print Assumptions c19_index_then_query_membership.
+
+(* the premises hold for a container of two slices whose second slice is multi-reference and holds
+   a `5S` read (CRAM end = start - 1); index() -> query() returns that read at its POS after the
+   read of the first slice that covers the position *)
+Theorem c19_index_then_query_multi_slice_witness :
+  mfile_ok 26 (map wcont_of (xfile mz_witness)) /\
+  (index_span_repaired = true ->
+   index_then_query 26 2 mz_witness 0 (Some 5) (Some 5)
+   = Ok [mkrec 0 (Some 0) 2 5 false; mkrec 1 (Some 0) 5 5 false]).
+Proof. split; [exact mz_witness_ok|exact mz_witness_answer]. Qed.
+Print Assumptions c19_index_then_query_multi_slice_witness.
 
 (* ---- the gzip layer of the .crai file (NV.CramIdx.Gz over C01's inflater and CRC-32) --------- *)
 
